@@ -12,20 +12,208 @@ TRUST = ("CPython 3.12, fractions, decimalfp's pure-Python Decimal (+ "
 CHECKS = {
     'C01': dict(
         engine='V+fork',
-        technique="bounded exhaustive exploration (explicit-state BFS over "
-                  "(unit, amount) states, all conversion paths up to depth "
-                  "2/3, all user definition trees up to 2/3 units) against a "
-                  "Fraction scale-table reference model",
+        technique="model checking: bounded exhaustive explicit-state "
+                  "exploration of conversion paths (all units x amount "
+                  "alphabet, depth 2/3; all user definition trees up to 2/3 "
+                  "units, each world in a fresh fork) against a Fraction "
+                  "scale-table reference model",
         text="Every conversion path of bounded depth from every (unit, "
              "amount) of a fixed alphabet is executed on the real library in "
              "the predefined catalogue and in every enumerated user world, "
              "each step compared with a scale table kept by the harness.",
         ref='4/C01'),
+    'C02': dict(
+        engine='V+fork',
+        technique="model checking: exhaustive enumeration of all 12769 "
+                  "ordered unit pairs x {*,/} x operand kinds, powers -3..3, "
+                  "number kinds, and of every subset of optional derived "
+                  "types in forked user worlds, against dimension arithmetic "
+                  "+ declared-type oracle",
+        text="All ordered pairs of declared units (catalogue and user "
+             "worlds in which each optional result type is declared or not) "
+             "are multiplied/divided/raised on the real operators; type, "
+             "unit, value or UndefinedResultError are decided by dimension "
+             "arithmetic on the harness's own directory.",
+        ref='4/C02'),
+    'C03': dict(
+        engine='V',
+        technique="model checking: exhaustive enumeration of type pairs x "
+                  "operators, number kinds x operators x operand order, and "
+                  "of all unit pairs/triples x amount alphabet for the group "
+                  "laws, against Fraction reference values",
+        text="Every ordered pair of distinct types and every number kind is "
+             "pushed through every operator; group laws are checked on all "
+             "unit pairs and triples of every linear type with exact "
+             "reference values.",
+        ref='4/C03'),
+    'C04': dict(
+        engine='V',
+        technique="model checking: exhaustive enumeration of unit pairs x "
+                  "amounts (incl. exactly-equal partners and +-1e-12 "
+                  "neighbours, Decimal and Fraction holders) x six operators; "
+                  "sorted() over all arrangements of 4-multisets",
+        text="The six comparison operators are compared with the same "
+             "operators on Fraction reference values for all unit pairs and "
+             "an amount alphabet that contains cross-unit ties and near "
+             "ties in both number representations.",
+        ref='4/C04'),
+    'C05': dict(
+        engine='V+fork',
+        technique="model checking: exhaustive enumeration of producing "
+                  "operations x grid-adjacent amounts x units x 8 default "
+                  "rounding modes (configuration space) against a "
+                  "round-once oracle cross-validated with stdlib decimal",
+        text="Every producing operation is run on amounts around grid "
+             "points in every unit of the quantized worlds under all 8 "
+             "default rounding modes; the stored amount must be the exact "
+             "result rounded exactly once.",
+        ref='4/C05'),
+    'C06': dict(
+        engine='V',
+        technique="model checking: exhaustive enumeration of all ratio "
+                  "lists up to length 3/4 over a ratio alphabet x quantities "
+                  "x disperse flag x rounding modes; conservation and "
+                  "deviation invariants on every execution",
+        text="allocate() is run on every ratio list of bounded length; "
+             "conservation, immutability of the receiver and the deviation "
+             "bounds are evaluated on every result.",
+        ref='4/C06'),
+    'C07': dict(
+        engine='V',
+        technique="model checking: exhaustive enumeration of all item "
+                  "sequences up to length 3/4 over an element universe, all "
+                  "pairs/triples of short terms, against a denotational "
+                  "model (Fraction, exponent vector)",
+        text="All terms up to a length bound over base, derived, mutually "
+             "convertible and numeric elements are constructed, normalised, "
+             "compared, hashed, multiplied, divided and raised; every result "
+             "is compared with its denotation.",
+        ref='4/C07'),
+    'C08': dict(
+        engine='V',
+        technique="model checking: complete enumeration of the bundled ISO "
+                  "4217 table and of ordered currency pairs x operators, "
+                  "against an independent regex parse of the XML",
+        text="Every functional currency of the table is registered twice "
+             "and compared with an independent parse; every ordered pair of "
+             "distinct currencies (quick: 30, thorough: all 167) goes "
+             "through every mixing operator with no converter active.",
+        ref='4/C08'),
+    'C09': dict(
+        engine='V',
+        technique="model checking: exhaustive enumeration of a grid of unit "
+                  "multiples x mantissa x exponent x number kind x currency "
+                  "pair, and of all ordered pairs of a rate sub-grid for "
+                  "triangulation, against the normal-form predicate",
+        text="Every rate of the input grid is constructed (or must be "
+             "rejected), inverted and triangulated with every other rate of a "
+             "sub-grid; normal form and accuracy are decided with Fractions.",
+        ref='4/C09'),
+    'C10': dict(
+        engine='V+fork',
+        technique="model checking: exhaustive enumeration of money amounts "
+                  "x rates x operand orders x {*,/}, and of every subset of "
+                  "declared compound units in forked worlds",
+        text="All money x rate combinations and all price x rate "
+             "combinations in worlds where each compound target unit is "
+             "declared or missing are executed and compared with the exact "
+             "product rounded once.",
+        ref='4/C10'),
+    'C11': dict(
+        engine='H',
+        technique="model checking: stateless exhaustive exploration of all "
+                  "update histories up to depth 3/4 on fresh converter "
+                  "objects, all lookups after every step, against a "
+                  "rate-table reference model",
+        text="Every sequence of update calls over the event alphabet up to "
+             "the depth bound is executed on a fresh MoneyConverter; after "
+             "every step all (currency pair, date) lookups are compared with "
+             "a dict model.",
+        ref='4/C11'),
+    'C12': dict(
+        engine='H',
+        technique="model checking: explicit-state BFS over register / "
+                  "unregister / enter / leave / leave-by-exception histories "
+                  "with fork() snapshots, state = converter list, against a "
+                  "LIFO stack model",
+        text="All histories up to depth 6/8 over 2/3 converters are executed "
+             "on the real Money registry (one fork per transition); the "
+             "converter list and the conversion result are compared with a "
+             "Python list model in every state.",
+        ref='4/C12'),
+    'C13': dict(
+        engine='V',
+        technique="model checking: exhaustive enumeration of amounts (k/8, "
+                  "thirds, tie neighbours; Decimal and Fraction) x quanta x "
+                  "units x 8 modes (explicit and default) against the "
+                  "rounding oracle",
+        text="quantize and round are run on a grid that contains every tie "
+             "and its neighbours in both representations under all 8 modes.",
+        ref='4/C13'),
+    'C14': dict(
+        engine='V+fork',
+        technique="model checking: exhaustive enumeration of temperature "
+                  "unit pairs/triples x amounts, and of all user conversion "
+                  "tables with up to 2/3 rows (mapping and list form) in "
+                  "forked worlds",
+        text="All ordered pairs and triples of temperature units and every "
+             "user table up to the row bound are exercised in every "
+             "direction, compared with exact affine arithmetic.",
+        ref='4/C14'),
+    'C15': dict(
+        engine='H',
+        technique="model checking: stateless DFS over all declaration "
+                  "histories up to depth 4/5 (fork() snapshot per node), "
+                  "directory invariant evaluated in every state against a "
+                  "directory model",
+        text="Every sequence of valid and invalid declarations up to the "
+             "depth bound is executed on the real registries; after every "
+             "step the complete directory is compared with the harness's "
+             "model.",
+        ref='4/C15'),
+    'C16': dict(
+        engine='H',
+        technique="model checking: fault enumeration inside the history "
+                  "explorer -- an invalid declaration at every position of "
+                  "every history, differential fingerprint comparison with "
+                  "the history without it",
+        text="For every explored history, every invalid step is injected at "
+             "every position; the fingerprint of all observable directories "
+             "and results must equal that of the history without the step.",
+        ref='4/C16'),
+    'C17': dict(
+        engine='H',
+        technique="model checking: stateless DFS over all interleavings of "
+                  "declarations and operations up to depth 4/5 (fork per "
+                  "node), pairwise comparison of results grouped by declared "
+                  "set",
+        text="All interleavings of declarations and (repeated, premature, "
+             "reordered) operations are executed; results are compared with "
+             "the oracle and pairwise across histories.",
+        ref='4/C17'),
+    'C18': dict(
+        engine='V',
+        technique="model checking: exhaustive enumeration of numeric input "
+                  "kinds x all registered units x both factories, text round "
+                  "trips, and a token grammar of malformed strings",
+        text="Every numeric spelling of the alphabet is constructed in every "
+             "registered unit through both factories, printed and parsed "
+             "back; every malformed string of a small grammar must raise "
+             "QuantityError.",
+        ref='4/C18'),
+    'C19': dict(
+        engine='V',
+        technique="model checking: exhaustive enumeration of pairs the "
+                  "implementation reports equal (quantities across all unit "
+                  "pairs, same-scale units, equal terms, equal rates)",
+        text="All pairs of equal objects constructible from the alphabets "
+             "are enumerated and their hashes compared.",
+        ref='4/C19'),
     'C20': dict(
         engine='V',
-        technique="complete enumeration of a finite catalogue (every unit, "
-                  "ordered pair, prefix, documentation row) against a "
-                  "hand-entered reference table",
+        technique="model checking (degenerate: complete enumeration of a "
+                  "finite catalogue -- every unit, ordered pair, prefix, "
+                  "documentation row) against a hand-entered reference table",
         text="The catalogue is finite; every unit, every ordered pair per "
              "type, every SI prefix and every documentation row is checked "
              "against an independent reference table, so the enumeration is "
